@@ -235,8 +235,10 @@ def main(tier):
             # (e) behaviour: sessions whose model settings come from the file through the model's reader
             tabs = info["tables"]["defender"]
 
+            pending = []
+
             def on_fail(tags, sig, desc, rep):
-                V.fail("behaviour:" + sig, "with settings taken from the configuration file: " + desc, rep)
+                pending.append((tags, sig, desc, rep))
 
             def cfg_gen(r):
                 return CC.gen_config(r)
@@ -253,6 +255,24 @@ def main(tier):
                 CC.run_sessions(drv, rng, tabs, on_fail, cstats, 25 if tier == "quick" else 300, 40, {"outcome_mix": True, "leave": 0.03, "bad": 0.02})
             finally:
                 CC.settings_of = orig_settings_of
+            # a disagreement belongs to C19 only if it disappears when the model takes its settings from what
+            # the running coordinator says it uses (then the game does not honour the file); otherwise it is
+            # some other property's business
+            seen = set()
+            for tags, sig, desc, rep in pending:
+                key = json.dumps(rep.get("events", []), sort_keys=True)[:2000]
+                if key in seen:
+                    continue
+                seen.add(key)
+                again = []
+                sess = CC.Session(drv, random.Random(0), rep["config"], tabs, lambda t, s_, d, r: again.append(s_), {}, "recheck")
+                try:
+                    CC.replay_events(sess, rep["events"])
+                finally:
+                    sess.close()
+                about_setting = ("TimeoutReached" in desc or sig.startswith(("reward:", "maxsteps", "state:startEv", "files-", "agent:reward")))
+                if not again or "C19" in tags or about_setting:
+                    V.fail("behaviour:" + sig, "the game does not behave as the configuration file says: " + desc, rep)
         finally:
             drv.close()
     code, nviol = V.finish()
